@@ -138,9 +138,11 @@ pub fn c10_judge(k: &SpreadCase, out: &GuardOutcome) -> Result<bool, String> {
 }
 
 fn gen_price(s: &mut Src) -> u128 {
-    match s.weighted(&[3, 1, 1, 3, 3, 2]) {
+    match s.weighted(&[3, 1, 1, 3, 3, 2, 1]) {
         0 => E18,
         1 => 0,
+        // the whole width of the 128-bit Decimal the message carries (whole part beyond 2^64)
+        6 => s.bits_u128(128).max(1),
         2 => 1 + s.below(1000) as u128,
         3 => s.bits_u128(100),
         4 => {
@@ -154,7 +156,7 @@ fn gen_price(s: &mut Src) -> u128 {
 
 fn gen_spread_limit(s: &mut Src) -> u128 {
     if s.chance(1, 8) {
-        E18 + s.bits_u128(70) // above 100 %
+        E18 + if s.bool() { s.bits_u128(70) } else { s.bits_u128(127) } // above 100 %, up to the width of the 128-bit Decimal
     } else {
         gen_rate_atomics(s)
     }
@@ -385,7 +387,7 @@ pub fn gen_slip_case(s: &mut Src) -> SlipCase {
     let tol = match s.weighted(&[1, 8, 1]) {
         0 => None,
         1 => Some(gen_rate_atomics(s)),
-        _ => Some(E18 + 1 + s.bits_u128(64)),
+        _ => Some(E18 + 1 + if s.bool() { s.bits_u128(64) } else { s.bits_u128(127) }),
     };
     let nz = |s: &mut Src| -> u128 {
         if s.chance(1, 40) { 0 } else { gen128(s).max(1) }
